@@ -194,7 +194,16 @@ func (w *World) cfgJSON() map[string]interface{} {
 	qos := []map[string]interface{}{}
 	has0 := false
 
-	for _, q := range w.Cfg.QciQos {
+	lastOf := map[uint8]int{}
+	for i, q := range w.Cfg.QciQos {
+		lastOf[q.QCI] = i
+	}
+
+	for i, q := range w.Cfg.QciQos {
+		if lastOf[q.QCI] != i { // a later entry for the same QFI replaces an earlier one (the configuration is a list)
+			continue
+		}
+
 		qos = append(qos, map[string]interface{}{"qfi": int(q.QCI), "cbs": pfcpx.Big(uint64(q.CBS)), "pbs": pfcpx.Big(uint64(q.PBS)),
 			"ebs": pfcpx.Big(uint64(q.EBS)), "dur": int(q.BurstDurationMs)})
 
